@@ -101,8 +101,7 @@ class C19(CheckBase):
                 data = bytes(c07.mutate(ic, data, bounds))
                 name = "img." + ic["ext"]
                 if ic["gz"]:
-                    import gzip
-                    data = gzip.compress(data, 1, mtime=0)
+                    data = c07.compress_image(ic, data)
                     name += ".gz"
                 img = sb.file(name, data)
                 nm = "F"
